@@ -142,6 +142,11 @@ fn child(case: &C13Case, fd: i32) {
     crate::vsched::install();
     ignore_sigpipe();
     let kind = case.kind % 5;
+    if !crate::sysspy::active() {
+        emit(fd, &json!({"k": "infra", "what": "write/send interposition is not active in this executable"}));
+        return;
+    }
+    crate::sysspy::unwatch_all();
     // measure capacity on a twin
     let cap = {
         let (tr, tw) = match make_pair(kind) {
@@ -243,12 +248,17 @@ fn child(case: &C13Case, fd: i32) {
             }
         }
     };
+    // from here on every write/send attempt on the write end's descriptor number is counted
+    crate::sysspy::watch(0, w);
     let flags_after = unsafe { libc::fcntl(wdup, libc::F_GETFL) };
     emit(fd, &json!({"k": "registered", "prefill": prefill, "nonblock": flags_after & libc::O_NONBLOCK != 0, "w": w}));
     let second = if case.second {
         let (r2, w2) = make_pair(kind).unwrap();
         match register(case.raw, SIG, w2) {
-            Ok(id2) => Some((r2, w2, id2)),
+            Ok(id2) => {
+                crate::sysspy::watch(1, w2);
+                Some((r2, w2, id2))
+            }
             Err(_) => None,
         }
     } else {
@@ -264,6 +274,10 @@ fn child(case: &C13Case, fd: i32) {
             4 => libc::EPIPE,
             _ => 0,
         };
+        let (a0, a1) = (crate::sysspy::attempts(0), crate::sysspy::attempts(1));
+        // a handler that keeps trying (retry on EAGAIN, spin until there is room) is stopped and
+        // reported by the interposer itself: at most one attempt per delivery and self-pipe
+        crate::sysspy::set_limit(fd, *n as u64 * if second.is_some() { 2 } else { 1 });
         for _ in 0..*n {
             unsafe {
                 if e != 0 {
@@ -272,12 +286,15 @@ fn child(case: &C13Case, fd: i32) {
                 libc::raise(SIG)
             };
         }
+        crate::sysspy::clear_limit();
+        let (att, att2) = (crate::sysspy::attempts(0) - a0, crate::sysspy::attempts(1) - a1);
         let got = drain(r, kind);
         let xs = got.iter().filter(|b| **b == b'X').count();
         let ps = got.iter().filter(|b| **b == b'P').count();
         let empties = got.iter().filter(|b| **b == 0xFF).count();
         let other = got.len() - xs - ps - empties;
-        let mut rec = json!({"k": "burst", "i": bi, "n": n, "x": xs, "p": ps, "empty": empties, "other": other, "prefill": if first { prefill } else { 0 }});
+        let mut rec = json!({"k": "burst", "i": bi, "n": n, "x": xs, "p": ps, "empty": empties, "other": other, "prefill": if first { prefill } else { 0 }, "att": att, "att2": att2,
+            "not_one": crate::sysspy::not_one(0) + crate::sysspy::not_one(1), "blocking_sends": crate::sysspy::blocking_sends(0) + crate::sysspy::blocking_sends(1)});
         if let Some((r2, _, _)) = &second {
             let g2 = drain(*r2, kind);
             rec["x2"] = json!(g2.iter().filter(|b| **b == b'X').count());
@@ -296,6 +313,7 @@ fn child(case: &C13Case, fd: i32) {
     };
     let open_after = fd_valid(w);
     emit(fd, &json!({"k": "unregistered", "ret": un, "w_open": open_after}));
+    let att_at_removal = crate::sysspy::attempts(0);
     if case.reuse_probe && !open_after {
         // take the number for an unrelated pipe and go on living
         let mut p = [0i32; 2];
@@ -309,7 +327,7 @@ fn child(case: &C13Case, fd: i32) {
         set_nonblock(p[0]);
         let mut b = [0u8; 16];
         let n = unsafe { libc::read(p[0], b.as_mut_ptr() as *mut _, 16) };
-        emit(fd, &json!({"k": "reuse", "same_number": same, "second_unregister": un2, "still_valid": valid, "bytes": n.max(0)}));
+        emit(fd, &json!({"k": "reuse", "same_number": same, "second_unregister": un2, "still_valid": valid, "bytes": n.max(0), "att_after_removal": crate::sysspy::attempts(0) - att_at_removal}));
         // bytes written after removal would also reach the old reader
         let late = drain(r, kind);
         emit(fd, &json!({"k": "late", "x": late.iter().filter(|b| **b == b'X').count()}));
@@ -352,6 +370,10 @@ pub fn run_case(case: &C13Case) -> CaseReport {
     rep.class(kindname);
     if recs.iter().any(|r| r["k"] == "infra") {
         rep.inconclusive = Some(format!("{:?}", recs.iter().find(|r| r["k"] == "infra")));
+        return rep;
+    }
+    if recs.iter().any(|r| r["k"] == "over-attempts") {
+        rep.viol("C13/attempts", "a delivery made more than one write/send attempt on its self-pipe (stopped by the interposer inside the burst)".into());
         return rep;
     }
     match &end {
@@ -416,6 +438,19 @@ pub fn run_case(case: &C13Case) -> CaseReport {
         if other > 0 {
             rep.viol("C13/count", format!("unexpected bytes in the self-pipe: {}", r));
         }
+        let att = r["att"].as_u64().unwrap_or(0);
+        if att != n {
+            rep.viol("C13/attempts", format!("{} deliveries made {} write/send attempts on the self-pipe (exactly one each is required, full or not)", n, att));
+        }
+        if case.second && recs.iter().any(|x| x["k"] == "second-after") && r["att2"].as_u64().unwrap_or(0) != n {
+            rep.viol("C13/attempts", format!("{} deliveries made {} attempts on the second self-pipe", n, r["att2"]));
+        }
+        if r["not_one"].as_u64().unwrap_or(0) != 0 {
+            rep.viol("C13/attempts", format!("{} wake-up attempts were not exactly one byte long", r["not_one"]));
+        }
+        if r["blocking_sends"].as_u64().unwrap_or(0) != 0 {
+            rep.viol("C13/blocking-fd", format!("{} wake-up sends without MSG_DONTWAIT", r["blocking_sends"]));
+        }
         if empties > 1 {
             rep.viol("C13/count", format!("{} empty datagrams (one probe message is documented)", empties));
         }
@@ -454,6 +489,9 @@ pub fn run_case(case: &C13Case) -> CaseReport {
     }
     if let Some(u) = recs.iter().find(|r| r["k"] == "reuse") {
         rep.class("reuse-probe");
+        if u["att_after_removal"].as_u64().unwrap_or(0) != 0 {
+            rep.viol("C13/fd-reuse-hit", format!("after removal {} write/send attempts were made on the descriptor number the self-pipe used to have", u["att_after_removal"]));
+        }
         if u["still_valid"] != true || u["bytes"].as_i64().unwrap_or(0) != 0 || u["second_unregister"] == true {
             rep.viol("C13/fd-reuse-hit", format!("after removal the descriptor number was reused by the application and then touched by the library: {}", u));
         }
